@@ -217,19 +217,21 @@ func runIdempotent(c *core.Ctx) {
 
 // ---- SH-PASS-LOOP ----
 
-// loopHeader returns the innermost block that dominates b and lies on a cycle through b.
+// loopHeader returns the header of the innermost natural loop containing b: the closest dominator d of
+// b that has a back edge (a predecessor it dominates) from which... b can reach d again.
 func loopHeader(b *ssa.BasicBlock) *ssa.BasicBlock {
-	var best *ssa.BasicBlock
 	for d := b; d != nil; d = d.Idom() {
-		if an.BlockReaches(b, d) && d.Dominates(b) && (d != b || an.BlockReaches(b, b)) {
-			// d is on a cycle with b; the innermost is the first found walking up
-			if len(d.Preds) >= 2 {
-				best = d
-				break
+		back := false
+		for _, p := range d.Preds {
+			if d.Dominates(p) && (p == b || an.BlockReaches(b, p) || b == d) {
+				back = true
 			}
 		}
+		if back && (d == b || an.BlockReaches(b, d)) {
+			return d
+		}
 	}
-	return best
+	return nil
 }
 
 // mustReachBlockBefore: every path from start reaches block goal before an instruction satisfying stop.
